@@ -124,6 +124,16 @@ pub fn exec(kv: &Kv) -> String {
 // ------------------------------------------------------------------------------ generators
 
 fn bad_utf8(rng: &mut Rng, len: usize) -> Vec<u8> {
+    // valid text whose last character is cut short (a clamped multi-byte character at the very end)
+    if len >= 3 && rng.chance(1, 3) {
+        let tail: &[u8] = *rng.pick(&[&[0xc3u8][..], &[0xe2, 0x82][..], &[0xf0, 0x9f, 0x98][..], &[0xf0, 0x9f][..], &[0xe2][..]]);
+        let mut v = rand_utf8(rng, len - tail.len()).into_bytes();
+        while v.len() < len - tail.len() {
+            v.push(b'a');
+        }
+        v.extend_from_slice(tail);
+        return v;
+    }
     let mut v = rand_utf8(rng, len).into_bytes();
     while v.len() < len {
         v.push(b'z');
@@ -314,6 +324,24 @@ pub fn gen(which: &str, rng: &mut Rng, count: usize, thorough: bool, out: &mut V
                     v[1] = if len == 8 { 1 } else { 2 };
                 }
                 out.push(format!("attr op=dec k={} ty={:04x} v={}", kind, kind_code(kind), hex_or_dash(&v)));
+            }
+        }
+        // at and just below each text limit: valid text whose final character is cut short (must be refused as not UTF-8, at every
+        // length -- a reader tolerant of a clamped last character would accept exactly at the limit)
+        let limit = match *kind { "Username" => 513usize, "Realm" | "Nonce" | "Software" => 763, "ErrorCode" => 767, _ => 0 };
+        if limit > 0 {
+            for len in [limit, limit - 1, limit - 2, 40] {
+                for tail in [&[0xc3u8][..], &[0xe2, 0x82][..], &[0xf0, 0x9f, 0x98][..]] {
+                    if !mine(&mut idx) {
+                        continue;
+                    }
+                    let mut v: Vec<u8> = if *kind == "ErrorCode" { vec![0, 0, 4, 1] } else { vec![] };
+                    while v.len() < len - tail.len() {
+                        v.push(b'a' + (rng.below(26) as u8));
+                    }
+                    v.extend_from_slice(tail);
+                    out.push(format!("attr op=dec k={} ty={:04x} v={}", kind, kind_code(kind), hex_or_dash(&v)));
+                }
             }
         }
         // values of more than 65535 bytes: `RawAttribute::new` keeps only the low 16 bits of the length in
